@@ -2,7 +2,10 @@ module verif
 
 go 1.21
 
-require github.com/elastic/go-txfile v0.0.0
+require (
+	github.com/anishathalye/porcupine v1.3.0
+	github.com/elastic/go-txfile v0.0.0
+)
 
 require (
 	github.com/gofrs/flock v0.7.1 // indirect
